@@ -1,6 +1,6 @@
 """C15 -- Sampled bitstrings: total count, key length, bit encoding, per-bit readout flips
 (the counting / encoding clauses; the distribution itself is statistics and not decided)."""
-from contracts import sampling
+from contracts import mps_readers, sampling
 
 ID = "C15"
 LEVEL = "proof"
@@ -9,6 +9,9 @@ REPLAY = "replay/c15.py"
 
 def build(reg):
     targets = sampling.register(reg, "C15")
+    # the conditional sweep of MPS.sample on the factor-list model of C10 (centre at 0 before the sweep,
+    # sites absorbed left to right once, branch kept = outcome drawn at that site, state unchanged on return)
+    targets = targets + mps_readers.register_c15(reg, "C15")
     return dict(
         targets=targets,
         not_decided=[
@@ -26,6 +29,26 @@ def build(reg):
             "StateVector / DensityMatrix hold 2**n_qudits entries (constructor assert); n_qudits = log2 of that",
             "Counter: c[k] += 1 adds one to the total; Counter(list) has one count per list element; "
             "''.join of one-character pieces has one character per piece",
-            "linear algebra inside MPS.sample (tensordot, vector_norm, indexing of the accumulator) is opaque",
+            "linear algebra inside MPS.sample (tensordot, vector_norm, indexing of the accumulator) is opaque in the "
+            "counting/encoding contracts; in MPS.sample[sweep] it is abstract (contracts/mps_readers.py): trusted "
+            "link -- when every factor right of site q is right-orthonormal, the squared norms of the branches of "
+            "(left environment of the outcomes already drawn) x factor q are the joint weights of those outcomes "
+            "and outcome k at site q; torch.linalg.qr / tensordot / the factor-list model as in C10",
         ],
     )
+
+
+# negative controls (thorough tier): (name, file, old text, new text)
+CONTROLS = [
+    ('sample() skips orthogonalize(0)', 'emu_mps/mps.py',
+     '        assert one_state in {None, "r", "1"}\n        self.orthogonalize(0)\n',
+     '        assert one_state in {None, "r", "1"}\n'),
+    ('sample() sweeps from a centre on the last site', 'emu_mps/mps.py',
+     '        assert one_state in {None, "r", "1"}\n        self.orthogonalize(0)\n',
+     '        assert one_state in {None, "r", "1"}\n        self.orthogonalize(self.num_sites - 1)\n'),
+    ('sample() keeps the branch of the previous shot', 'emu_mps/mps.py',
+     'batched_accumulator = batched_accumulator[rangebatch, outcomes, :]',
+     'batched_accumulator = batched_accumulator[rangebatch, outcomes.roll(1), :]'),
+    ('sample() writes site q at string position N-1-q', 'emu_mps/mps.py',
+     'batch_outcomes[:, qubit] = outcomes', 'batch_outcomes[:, self.num_sites - 1 - qubit] = outcomes'),
+]
